@@ -42,6 +42,10 @@ Replace_ == "replace" \in Ops /\ \E i \in DOMAIN pool : Room /\
 AddField_ == "addfield" \in Ops /\ \E i \in DOMAIN pool : Room /\ "extra" \notin DOMAIN pool[i] /\
               New([c \in DOMAIN pool[i] \cup {"extra"} |-> IF c = "extra" THEN [j \in 1..NRowsOf(pool[i]) |-> <<"n", nfresh + 1, j>>] ELSE pool[i][c]],
                   [op |-> "addfield", t |-> i, k |-> nfresh + 1]) /\ nfresh' = nfresh + 1
+\* add_fields with the name of a column the table already has: that column takes the given values (a replacement by another route)
+AddExisting_ == "addexisting" \in Ops /\ \E i \in DOMAIN pool : Room /\
+              New([pool[i] EXCEPT ![RepCol] = [j \in 1..NRowsOf(pool[i]) |-> <<"n", nfresh + 1, j>>]], [op |-> "addexisting", t |-> i, k |-> nfresh + 1])
+              /\ nfresh' = nfresh + 1
 \* sort_by: the rows in non-decreasing key order; the order among equal keys is not prescribed, so the model records
 \* only WHICH rows (as a bag, through their positions) and the sorted key sequence; a stable witness is kept in the pool
 SortIdx(t) == LET n == NRowsOf(t)
@@ -72,7 +76,7 @@ Construct_ == "construct" \in Ops /\ \E i \in DOMAIN pool : \E fm \in {"strings"
                 obs' = [kind |-> "construct", t |-> i, must_raise |-> (fm = "bad"), may_raise |-> (fm \in {"as-id", "other", "bad"})] /\
                 UNCHANGED <<pool, nfresh>>
 
-Next == Construct_ \/ Index_ \/ Concat_ \/ Replace_ \/ AddField_ \/ Sort_ \/ Rows_ \/ Dict_ \/ Pandas_ \/ Iter_ \/ Len_
+Next == Construct_ \/ Index_ \/ Concat_ \/ Replace_ \/ AddField_ \/ AddExisting_ \/ Sort_ \/ Rows_ \/ Dict_ \/ Pandas_ \/ Iter_ \/ Len_
 Spec == Init /\ [][Next]_vars
 
 \* ---- properties
